@@ -555,7 +555,7 @@ def c14_cases(tier):
                         # name assignments
                         order_idx = sorted(range(n), key=lambda i: perm[i])   # positions sorted by the intended value
                         for na in ("by-value", "reverse", "rename-invert", "prefix-equal", "equal-pair", "equal-last", "rename-fix",
-                                   "partial-fix", "partial-break"):
+                                   "partial-fix", "partial-break", "empty-first", "awkward-asc", "awkward-desc"):
                             if n == 1 and na != "by-value":
                                 continue
                             if tier == "quick" and na == "prefix-equal" and n > 2:
@@ -573,6 +573,17 @@ def c14_cases(tier):
                                 for pos in range(n):
                                     idents[pos] = "N%d" % pos
                                     renames[pos] = "r%d" % (n - 1 - pos)
+                            elif na in ("empty-first", "awkward-asc", "awkward-desc"):
+                                # byte-wise order of unusual names: the empty name first, then space < "A*" < "B" < "a b" < "é" < "日本"
+                                pool = ["", " ", "A*", "B", "a b", "\u00e9", "\u65e5\u672c"]
+                                pick = pool[:n] if na == "empty-first" else (pool[1::2][:n] + pool[:1])[:n] if False else pool[7 - n:]
+                                if na == "empty-first":
+                                    pick = pool[:n]
+                                elif na == "awkward-desc":
+                                    pick = pick[::-1]
+                                for pos in range(n):
+                                    idents[pos] = "N%d" % pos
+                                    renames[pos] = pick[pos]
                             elif na == "rename-fix":
                                 # identifiers DESCENDING in declaration order, renames ascending: sorted by name only thanks to the renames
                                 for pos in range(n):
@@ -635,16 +646,30 @@ def c14(tier):
         if c[1] not in seen:
             seen[c[1]] = True
             uniq.append(c)
-    vs = e2.compile_many([{"src": c[1]} for c in uniq])
-    for (lab, src, want, info), v in zip(uniq, vs):
+    # The sorted check lives in the parser: every case is expanded in-process by the real parser (E1); rustc judges all cases in the
+    # thorough tier and a fixed 1-in-6 slice (plus every case on which E1 disagrees with the reference predicate) in the quick tier.
+    import e1
+    import re as _re
+    texts = [_re.sub(r"#\[derive\([^)]*\)\]\s*", "", _re.sub(r"^#!\[allow\(warnings\)\]\nuse enum_tools::EnumTools;\n", "", c[1])) for c in uniq]
+    e1out = e1.expand_many(texts)
+    judge = [i for i, c in enumerate(uniq) if tier == "thorough" or i % 6 == 0 or (e1out[i][0] == "OK") != c[2]]
+    vs = dict(zip(judge, e2.compile_many([{"src": uniq[i][1]} for i in judge])))
+    res.extra["judged_by_rustc"] = len(judge)
+    res.extra["expanded_in_process"] = len(uniq)
+    for i, (lab, src, want, info) in enumerate(uniq):
         res.states += 1
         res.transitions += 1
-        res.validated += 1
-        if v.ok != want:
-            res.violation({"kind": "sorted-accepts-unsorted" if v.ok else "sorted-rejects-sorted", "case": lab},
-                          {"expected_compiles": want, "compiles": v.ok, "info": info, "rustc": v.to_json(), "source": src},
-                          {"repro.rs": ("// must %scompile\n" % ("" if want else "NOT ")) + src + "\nfn main() {}\n"})
-        res.outcome(("compiles" if v.ok else "rejected") + (":" + str(info["sorted"])))
+        e1ok = e1out[i][0] == "OK"
+        v = vs.get(i)
+        if v is not None:
+            res.validated += 1
+            if v.ok != e1ok:
+                res.machinery_error("E1 and rustc disagree on %s: E1 %s, rustc %s %s" % (lab, e1out[i][0], v.ok, v.errors[:2]))
+            if v.ok != want:
+                res.violation({"kind": "sorted-accepts-unsorted" if v.ok else "sorted-rejects-sorted", "case": lab},
+                              {"expected_compiles": want, "compiles": v.ok, "info": info, "rustc": v.to_json(), "source": src},
+                              {"repro.rs": ("// must %scompile\n" % ("" if want else "NOT ")) + src + "\nfn main() {}\n"})
+        res.outcome(("compiles" if e1ok else "rejected") + (":" + str(info["sorted"])))
         if not want:
             res.nontrivial.add(lab)
     res.rule = ("states = (declaration, sorted form) pairs, each its own crate; expectation = strict ascending order of discriminants / of byte-wise "
